@@ -68,5 +68,9 @@ namespace sim
    SIM_IO_DECL( 6, 1 )
    SIM_IO_DECL( 6, 2 )
    SIM_IO_DECL( 6, 3 )
+   SIM_IO_DECL( 7, 0 )
+   SIM_IO_DECL( 7, 1 )
+   SIM_IO_DECL( 7, 2 )
+   SIM_IO_DECL( 7, 3 )
 #undef SIM_IO_DECL
 }  // namespace sim
